@@ -360,6 +360,10 @@ def oracle(deck, args, conv, t4, rng):
             return out          # not a valid deck: any loud stop is fine
         if conv.exc == 'ValueError' and not written_possible(deck, dedup):
             return out
+        if conv.exc == 'ValueError' and dedup and conflicting_kinds(last):
+            return out          # coincident surfaces flagged * and +: a
+            # repaired converter may refuse to merge them (the present code
+            # never does)
         out.append((None, f'valid deck rejected: {conv.exc}: {conv.msg[:120]}'))
         return out
     if t4.errors:
@@ -427,6 +431,16 @@ def oracle(deck, args, conv, t4, rng):
                     f'cell {live[0]["id"]} but no entry of its kind '
                     'designates a surface with its locus'))
     return out
+
+
+def conflicting_kinds(last):
+    '''Two coincident single surfaces (same descriptor class and TR) carrying
+    different proper flags.'''
+    kinds = {}
+    for s in last.values():
+        if s['flag'] in ('*', '+') and s['mcnp'] == 1:
+            kinds.setdefault((s['cls'], s.get('tr')), set()).add(s['flag'])
+    return any(len(v) > 1 for v in kinds.values())
 
 
 def trcl_shift(c):
